@@ -1788,6 +1788,12 @@ class unyt_array(np.ndarray):
         return ret
 
     def __setitem__(self, item, value):
+        if isinstance(value, (list, tuple)) and any(
+            isinstance(v, unyt_array) for v in value
+        ):
+            # a sequence of quantities carries units too: convert or refuse it
+            # like a unyt_array instead of silently dropping its units
+            value = _coerce_iterable_units(value)
         if hasattr(value, "units"):
             if value.units != self.units and value.units != NULL_UNIT:
                 value = value.to(self.units)
